@@ -187,12 +187,13 @@ impl GroupScen {
     fn list_all(&self, limit: Option<u32>) -> Vec<Member> {
         let mut out: Vec<Member> = vec![];
         let mut cursor: Option<String> = None;
-        for _ in 0..10_000 {
+        let mut guard = WalkGuard::default();
+        for _ in 0..MAX_WALK_PAGES {
             match self.q::<MemberListResponse>(QueryMsg::ListMembers { start_after: cursor.clone(), limit }) {
                 Some(p) if !p.members.is_empty() => {
                     let next = Some(p.members.last().unwrap().addr.clone());
                     out.extend(p.members);
-                    if next == cursor {
+                    if next == cursor || !guard.fresh(&next) {
                         break; // no progress (a defect in the code under test): do not walk forever
                     }
                     cursor = next;
